@@ -4286,3 +4286,36 @@ def param_kept(r: R, chk, quals: List[str], rule="PARAM-KEPT"):
                func=q, construct=f"parameter {p} rebound before the lookup")
     chk.floor(rule, "single-node lookups examined", n, len(quals))
     return n
+
+
+# ---------------------------------------------------------------------------------------------------------
+# MULT-AWARE: the copies of a knot that are inserted / removed to reach full multiplicity are counted from its multiplicity
+def mult_aware(r: R, chk, quals: List[str], rule="MULT-AWARE", floor: int = 1):
+    """Splitting a spline into Bezier pieces raises every interior knot to multiplicity degree + 1: a knot that already occurs m
+    times needs degree + 1 - m copies, and as many are taken out again afterwards.  The list of nodes handed to
+    `Operations.knot_insert` / `knot_remove` in these functions is therefore built from `knotvector.mult(node)`; a fixed count per
+    knot is right for simple knots only."""
+    n = 0
+    for q in quals:
+        fi = r.prog.func(q)
+        fn = fi.node
+        multnames = {a.targets[0].id for a in ast.walk(fn) if isinstance(a, ast.Assign) and len(a.targets) == 1 and isinstance(a.targets[0], ast.Name) and any(isinstance(c, ast.Call) and isinstance(c.func, ast.Attribute) and c.func.attr == "mult" for c in ast.walk(a.value))}
+
+        def aware(e):
+            return any((isinstance(x, ast.Name) and x.id in multnames) or (isinstance(x, ast.Call) and isinstance(x.func, ast.Attribute) and x.func.attr == "mult") for x in ast.walk(e))
+
+        for c in ast.walk(fn):
+            if not (isinstance(c, ast.Call) and seg(c.func).endswith(("Operations.knot_remove", "Operations.knot_insert")) and len(c.args) >= 2 and isinstance(c.args[1], ast.Name)):
+                continue
+            nm = c.args[1].id
+            defs = [a for a in ast.walk(fn) if (isinstance(a, ast.Assign) and any(nm in _target_names(t) for t in a.targets)) or (isinstance(a, ast.AugAssign) and nm in _target_names(a.target))]
+            defs += [x.value for x in ast.walk(fn) if isinstance(x, ast.Expr) and isinstance(x.value, ast.Call) and isinstance(x.value.func, ast.Attribute) and x.value.func.attr in ("extend", "append") and isinstance(x.value.func.value, ast.Name) and x.value.func.value.id == nm]
+            if not defs:
+                continue
+            n += 1
+            ok = any(aware(d.value if isinstance(d, (ast.Assign, ast.AugAssign)) else d) for d in defs)
+            chk.ob(rule, f"{q}: the nodes of `{seg(c, 40)}` are counted from the multiplicities", ok, loc=f"{fi.module}.py:{c.lineno}",
+                   detail="" if ok else f"{q}: `{nm}`, handed to `{seg(c, 50)}`, is built without `mult(...)`: a fixed number of copies per interior knot is right only for simple knots — for a knot of multiplicity 2 or more too many copies are taken out, the elevation matrix has too few rows and degree_increase / Derivate of a rational spline with a repeated knot raise",
+                   func=q, construct=f"{nm} not counted from the multiplicities")
+    chk.floor(rule, "node lists handed to Operations.knot_insert / knot_remove", n, floor)
+    return n
